@@ -40,6 +40,10 @@ type c05Cfg struct {
 	// Shape: how the backend's permanent / throttling / transient errors are dressed: as they are, wrapped with %w, or
 	// joined with another (plain) error; their meaning is the same
 	Shape string `json:"error_shape"`
+	// CancelAt > 0: the caller cancels its context inside the wait that follows that attempt (no queue: the retry
+	// loop runs on the caller's goroutine); CancelFrac as ShutFrac
+	CancelAt   int `json:"caller_cancels_after_attempt,omitempty"`
+	CancelFrac int `json:"caller_cancels_at_percent_of_wait,omitempty"`
 }
 
 func c05Config(tp *simkit.Tape) c05Cfg {
@@ -75,6 +79,9 @@ func c05Config(tp *simkit.Tape) c05Cfg {
 		c.ShutAt = tp.Range(1, n)
 		c.ShutFrac = []int{0, 50, 99}[tp.Draw(3)]
 		c.Persistent = tp.Chance(1, 2)
+	} else if tp.Chance(1, 6) {
+		c.CancelAt = tp.Range(1, n)
+		c.CancelFrac = []int{0, 50, 99}[tp.Draw(3)]
 	}
 	return c
 }
@@ -141,6 +148,8 @@ func runC05(r *simkit.Run) {
 	if cfg.DeadlineMs > 0 && !cfg.Persistent {
 		deadline = time.Now().Add(ms(cfg.DeadlineMs))
 		ctx, cancel = context.WithDeadline(ctx, deadline)
+	} else if cfg.CancelAt > 0 {
+		ctx, cancel = context.WithCancel(ctx)
 	}
 	defer cancel()
 	t0 := time.Now()
@@ -370,6 +379,23 @@ func runC05(r *simkit.Run) {
 				break
 			}
 		}
+		if must && cfg.CancelAt == attempt && cfg.DeadlineMs == 0 && verdict == "" {
+			// the caller gives up inside the wait that follows this attempt: the wait ends at once, with an error, and
+			// no further attempt is made
+			lo := time.Duration(float64(cur) * (1 - cfg.RF))
+			wait := lo * time.Duration(cfg.CancelFrac) / 100
+			if wait > 0 {
+				r.Fire("advance:into-the-wait", func() { time.Sleep(wait) })
+			}
+			if len(be.gate.Parked()) == 0 && !task.Done() {
+				r.Count("fault.caller_cancelled_in_wait")
+				r.Fire("caller-cancels", func() { cancel() })
+				if !task.Done() {
+					r.Failf("liveness", "cancelled-caller-still-waiting", "the caller's context was cancelled during a retry wait but the call did not return")
+				}
+				verdict = "cancelled"
+			}
+		}
 		if verdict != "" {
 			r.Fire("advance:long", func() { time.Sleep(10 * time.Minute) })
 			continue
@@ -426,6 +452,13 @@ func runC05(r *simkit.Run) {
 			case "gave-up":
 				if err == nil {
 					r.Failf("result", "failure-reported-as-success", "retries ended without success but the caller got nil")
+				}
+				if experr.IsShutdownErr(err) {
+					r.Failf("result", "spurious-shutdown-error", "no shutdown happened but the error is shutdown-classified: %v", err)
+				}
+			case "cancelled":
+				if err == nil {
+					r.Failf("result", "failure-reported-as-success", "the caller cancelled during a retry wait after a failed attempt but got nil")
 				}
 				if experr.IsShutdownErr(err) {
 					r.Failf("result", "spurious-shutdown-error", "no shutdown happened but the error is shutdown-classified: %v", err)
